@@ -39,7 +39,7 @@ import (
 
 type verifC10Suite struct {
 	snapmgrBaseTest
-	hookCfg  int  // when > 0 the configure / post-refresh hook of the running change sets the snap's config to this value
+	hookCfg int // when > 0 the configure / post-refresh hook of the running change sets the snap's config to this value
 }
 
 var _ = Suite(&verifC10Suite{})
@@ -58,13 +58,13 @@ const (
 )
 
 type c10Op struct {
-	Kind  string `json:"kind"`            // install refresh revert revert-to remove remove-rev enable disable retain retain-str setcfg inhibit
+	Kind string `json:"kind"` // install refresh revert revert-to remove remove-rev enable disable retain retain-str setcfg inhibit
 	// install: the revision. refresh: 0 = a revision never seen before, n > 0 = the kept revision at index (n-1) mod len
 	// (the next one when that is the current one; a new one when there is no other). revert-to / remove-rev: n > 0 = the kept
 	// revision at index (n-1) mod len, 0 = revision 99 (never kept). retain / retain-str / setcfg: the value.
-	Rev   int    `json:"rev,omitempty"`
-	Chan  int    `json:"chan,omitempty"`  // 0 none, 1 latest/stable, 2 latest/edge, 3 2.0/beta
-	Flags int    `json:"flags,omitempty"` // c10* bits
+	Rev   int `json:"rev,omitempty"`
+	Chan  int `json:"chan,omitempty"`  // 0 none, 1 latest/stable, 2 latest/edge, 3 2.0/beta
+	Flags int `json:"flags,omitempty"` // c10* bits
 	// failure injection. Fail = 0: none. Fail = k >= 1: an error-trigger task runs in place of the k-th task of the
 	// change (1-based; reduced modulo number of tasks + 1, where tasks + 1 means after the last task).
 	Fail int `json:"fail,omitempty"`
@@ -84,25 +84,25 @@ var c10Chans = []string{"", "latest/stable", "latest/edge", "2.0/beta"}
 // ---------------------------------------------------------------------------------------------- observation
 
 type c10State struct {
-	Seq        []int  `json:"seq"`
-	Current    int    `json:"current"`
-	Active     bool   `json:"active"`
-	Chan       string `json:"chan"`
-	DevMode    bool   `json:"devmode"`
-	JailMode   bool   `json:"jailmode"`
-	Classic    bool   `json:"classic"`
-	TryMode    bool   `json:"trymode"`
-	IgnoreVal  bool   `json:"ignore-validation"`
-	Cohort     string `json:"cohort"`
-	LastRefr   int    `json:"last-refresh"`      // 0 = nil, else the mocked clock value (operation number)
-	Inhibited  int    `json:"refresh-inhibited"` // 0 = nil
-	NotBlocked []int  `json:"not-blocked"`       // keys of RevertStatus with value NotBlocked, sorted
-	OtherRS    int    `json:"other-revert-status"`
-	Block      []int  `json:"block"` // SnapState.Block()
-	Cfg        int    `json:"cfg"`   // 0 = the snap has no configuration, else the value of key `k`
-	RevCfg     [][2]int `json:"revcfg"` // revision-config entries (revision, value of `k`), sorted by revision
-	Mounted    []int  `json:"mounted"` // world: revisions set up and not removed, sorted
-	Link       int    `json:"link"`    // world: revision the backend linked as current, 0 = none
+	Seq        []int    `json:"seq"`
+	Current    int      `json:"current"`
+	Active     bool     `json:"active"`
+	Chan       string   `json:"chan"`
+	DevMode    bool     `json:"devmode"`
+	JailMode   bool     `json:"jailmode"`
+	Classic    bool     `json:"classic"`
+	TryMode    bool     `json:"trymode"`
+	IgnoreVal  bool     `json:"ignore-validation"`
+	Cohort     string   `json:"cohort"`
+	LastRefr   int      `json:"last-refresh"`      // 0 = nil, else the mocked clock value (operation number)
+	Inhibited  int      `json:"refresh-inhibited"` // 0 = nil
+	NotBlocked []int    `json:"not-blocked"`       // keys of RevertStatus with value NotBlocked, sorted
+	OtherRS    int      `json:"other-revert-status"`
+	Block      []int    `json:"block"`   // SnapState.Block()
+	Cfg        int      `json:"cfg"`     // 0 = the snap has no configuration, else the value of key `k`
+	RevCfg     [][2]int `json:"revcfg"`  // revision-config entries (revision, value of `k`), sorted by revision
+	Mounted    []int    `json:"mounted"` // world: revisions set up and not removed, sorted
+	Link       int      `json:"link"`    // world: revision the backend linked as current, 0 = none
 }
 
 // the SnapSetup fields of the change that doLinkSnap reads
@@ -127,12 +127,13 @@ type c10Step struct {
 	Sup     *c10Sup  `json:"sup,omitempty"`
 	HookCfg int      `json:"hookcfg"`
 	Before  c10State `json:"-"`
-	Retain  int      `json:"retain"` // what refreshRetain answers before the operation
-	Err     bool     `json:"err"`    // the entry point refused (no change created)
+	Retain  int      `json:"retain"`          // what refreshRetain answers before the operation
+	Err     bool     `json:"err"`             // the entry point refused (no change created)
+	Panic   string   `json:"panic,omitempty"` // the entry point of the real code panicked (reported as a refusal; the history stops)
 	Kinds   []string `json:"kinds,omitempty"`
 	KRevs   []int    `json:"krevs,omitempty"` // revision of each task's own snap-setup
-	K       int      `json:"k"` // effective failure position (0 none)
-	NPos    int      `json:"npos"` // number of failure positions of the change (tasks + 1)
+	K       int      `json:"k"`               // effective failure position (0 none)
+	NPos    int      `json:"npos"`            // number of failure positions of the change (tasks + 1)
 	Status  string   `json:"status,omitempty"`
 	Copies  int      `json:"copies"` // copy-data backend operations during the change
 	After   c10State `json:"after"`
@@ -317,83 +318,93 @@ func (s *verifC10Suite) runOp(c *C, op c10Op, run *c10Run, fail int) c10Step {
 		s.hookCfg = 1000 + now
 	}
 	rev := op.Rev
-	switch op.Kind {
-	case "install":
-		if rev <= 0 {
-			rev = 1
-		}
-		ropts.Revision = snap.R(rev)
-		ts, err = snapstate.Install(context.Background(), st, c10Snap, ropts, s.user.ID, flags)
-	case "refresh":
-		seq := run.last.Seq
-		if op.Rev <= 0 || len(seq) <= 1 {
-			rev = run.maxRev + 1
-		} else {
-			i := (op.Rev - 1) % len(seq)
-			if seq[i] == run.last.Current {
-				i = (i + 1) % len(seq)
+	// the entry points run in this goroutine: a panic of the real code (e.g. CurrentSideInfo on a state whose current
+	// revision is not kept) is recovered and reported as an observation instead of killing the driver
+	func() {
+		defer func() {
+			if r := recover(); r != nil {
+				step.Panic = fmt.Sprint(r)
+				ts, err = nil, errors.New("panic: "+step.Panic)
 			}
-			rev = seq[i]
-		}
-		ropts.Revision = snap.R(rev)
-		s.fakeStore.refreshRevnos = map[string]snap.Revision{c10Snap + "-id": snap.R(rev)}
-		ts, err = snapstate.Update(st, c10Snap, ropts, s.user.ID, flags)
-	case "revert":
-		rev = 0
-		if op.Flags&c10NotBlocked != 0 {
-			flags.RevertStatus = snapstate.NotBlocked
-		}
-		ts, err = snapstate.Revert(st, c10Snap, flags, "")
-	case "revert-to":
-		rev = run.kept(op.Rev)
-		if op.Flags&c10NotBlocked != 0 {
-			flags.RevertStatus = snapstate.NotBlocked
-		}
-		ts, err = snapstate.RevertToRevision(st, c10Snap, snap.R(rev), flags, "")
-	case "remove":
-		rev = 0
-		ts, err = snapstate.Remove(st, c10Snap, snap.R(0), nil)
-	case "remove-rev":
-		rev = run.kept(op.Rev)
-		ts, err = snapstate.Remove(st, c10Snap, snap.R(rev), nil)
-	case "enable":
-		ts, err = snapstate.Enable(st, c10Snap)
-	case "disable":
-		ts, err = snapstate.Disable(st, c10Snap)
-	case "retain", "retain-str":
-		tr := config.NewTransaction(st)
-		if op.Kind == "retain" {
-			tr.Set("core", "refresh.retain", op.Rev)
-			run.rset = "n" + strconv.Itoa(op.Rev)
-		} else {
-			tr.Set("core", "refresh.retain", strconv.Itoa(op.Rev))
-			run.rset = "s" + strconv.Itoa(op.Rev)
-		}
-		tr.Commit()
-		step.Retain = s.retain()
-	case "setcfg":
-		// what `snap set some-snap k=<v>` leaves in the state (only on an installed snap)
-		if len(run.last.Seq) > 0 {
+		}()
+		switch op.Kind {
+		case "install":
+			if rev <= 0 {
+				rev = 1
+			}
+			ropts.Revision = snap.R(rev)
+			ts, err = snapstate.Install(context.Background(), st, c10Snap, ropts, s.user.ID, flags)
+		case "refresh":
+			seq := run.last.Seq
+			if op.Rev <= 0 || len(seq) <= 1 {
+				rev = run.maxRev + 1
+			} else {
+				i := (op.Rev - 1) % len(seq)
+				if seq[i] == run.last.Current {
+					i = (i + 1) % len(seq)
+				}
+				rev = seq[i]
+			}
+			ropts.Revision = snap.R(rev)
+			s.fakeStore.refreshRevnos = map[string]snap.Revision{c10Snap + "-id": snap.R(rev)}
+			ts, err = snapstate.Update(st, c10Snap, ropts, s.user.ID, flags)
+		case "revert":
+			rev = 0
+			if op.Flags&c10NotBlocked != 0 {
+				flags.RevertStatus = snapstate.NotBlocked
+			}
+			ts, err = snapstate.Revert(st, c10Snap, flags, "")
+		case "revert-to":
+			rev = run.kept(op.Rev)
+			if op.Flags&c10NotBlocked != 0 {
+				flags.RevertStatus = snapstate.NotBlocked
+			}
+			ts, err = snapstate.RevertToRevision(st, c10Snap, snap.R(rev), flags, "")
+		case "remove":
+			rev = 0
+			ts, err = snapstate.Remove(st, c10Snap, snap.R(0), nil)
+		case "remove-rev":
+			rev = run.kept(op.Rev)
+			ts, err = snapstate.Remove(st, c10Snap, snap.R(rev), nil)
+		case "enable":
+			ts, err = snapstate.Enable(st, c10Snap)
+		case "disable":
+			ts, err = snapstate.Disable(st, c10Snap)
+		case "retain", "retain-str":
 			tr := config.NewTransaction(st)
-			tr.Set(c10Snap, "k", op.Rev)
+			if op.Kind == "retain" {
+				tr.Set("core", "refresh.retain", op.Rev)
+				run.rset = "n" + strconv.Itoa(op.Rev)
+			} else {
+				tr.Set("core", "refresh.retain", strconv.Itoa(op.Rev))
+				run.rset = "s" + strconv.Itoa(op.Rev)
+			}
 			tr.Commit()
-		} else {
-			err = errors.New("not installed")
+			step.Retain = s.retain()
+		case "setcfg":
+			// what `snap set some-snap k=<v>` leaves in the state (only on an installed snap)
+			if len(run.last.Seq) > 0 {
+				tr := config.NewTransaction(st)
+				tr.Set(c10Snap, "k", op.Rev)
+				tr.Commit()
+			} else {
+				err = errors.New("not installed")
+			}
+		case "inhibit":
+			// what the refresh-app-awareness inhibition records on a running snap
+			var snapst snapstate.SnapState
+			if e := snapstate.Get(st, c10Snap, &snapst); e == nil {
+				t := time.Unix(c10Epoch+int64(now), 0)
+				snapst.RefreshInhibitedTime = &t
+				snapstate.Set(st, c10Snap, &snapst)
+			} else {
+				err = e
+			}
+		default:
+			c.Fatalf("unknown op kind %q", op.Kind)
 		}
-	case "inhibit":
-		// what the refresh-app-awareness inhibition records on a running snap
-		var snapst snapstate.SnapState
-		if e := snapstate.Get(st, c10Snap, &snapst); e == nil {
-			t := time.Unix(c10Epoch+int64(now), 0)
-			snapst.RefreshInhibitedTime = &t
-			snapstate.Set(st, c10Snap, &snapst)
-		} else {
-			err = e
-		}
-	default:
-		c.Fatalf("unknown op kind %q", op.Kind)
-	}
-	if rev > run.maxRev && rev != 99 {
+	}()
+	if (op.Kind == "install" || op.Kind == "refresh") && rev > run.maxRev && rev != 99 {
 		run.maxRev = rev
 	}
 	step.Rev = rev
@@ -490,6 +501,23 @@ func c10Kind(t *state.Task) string {
 	return t.Kind()
 }
 
+// the real code panicked, or left a state it panics on (current revision not among the kept ones): the history ends
+// here; the monitors have their failing observation
+func c10Broken(x c10Step) bool {
+	if x.Panic != "" {
+		return true
+	}
+	if len(x.After.Seq) == 0 {
+		return false
+	}
+	for _, r := range x.After.Seq {
+		if r == x.After.Current {
+			return false
+		}
+	}
+	return true
+}
+
 func (s *verifC10Suite) play(c *C, in c10In) []c10Step {
 	// gocheck has set the suite up once for the test method: every history gets a fresh overlord/state/backend
 	s.TearDownTest(c)
@@ -523,6 +551,10 @@ func (s *verifC10Suite) play(c *C, in c10In) []c10Step {
 		if op.Sweep {
 			for k := 1; ; k++ {
 				st := s.runOp(c, op, run, k)
+				if c10Broken(st) {
+					steps = append(steps, st)
+					return steps
+				}
 				if st.K != k { // refused, or k is past the last position of the (possibly shorter) chain
 					if st.K == 0 {
 						steps = append(steps, st)
@@ -538,6 +570,9 @@ func (s *verifC10Suite) play(c *C, in c10In) []c10Step {
 			continue
 		}
 		steps = append(steps, s.runOp(c, op, run, op.Fail))
+		if c10Broken(steps[len(steps)-1]) {
+			break
+		}
 	}
 	return steps
 }
@@ -714,6 +749,17 @@ func c10Sweeps(tier string) []c10In {
 		{Core: true, Ops: []c10Op{inst, newr, newr, {Kind: "revert-to", Rev: 1, Flags: c10NotBlocked}, sw(c10Op{Kind: "refresh", Rev: 3})}},
 		// a snap without configuration whose configure hook writes some
 		{Ops: []c10Op{inst, sw(c10Op{Kind: "refresh", Flags: hook})}},
+		// undo of a refresh to a KEPT revision after several discards (countMissingRevs with a non-zero count): the snap holds
+		// more revisions than retain because the setting was lowered; target in the middle, some of the revisions before it go
+		{Core: true, Ops: []c10Op{{Kind: "retain", Rev: 6}, inst, newr, newr, newr, newr, {Kind: "retain", Rev: 2},
+			sw(c10Op{Kind: "refresh", Rev: 4})}},
+		{Core: true, Ops: []c10Op{{Kind: "retain", Rev: 5}, inst, newr, newr, newr, {Kind: "revert"}, {Kind: "retain", Rev: 2},
+			sw(c10Op{Kind: "refresh", Rev: 2, Flags: hook})}},
+		// C11: remove --revision of a disabled snap: the current one when it is not the last kept one (after a revert), a
+		// non-current one, then the current one again, enable
+		{Core: true, Ops: []c10Op{inst, newr, newr, {Kind: "revert"}, {Kind: "disable"}, {Kind: "remove-rev", Rev: 2},
+			{Kind: "remove-rev", Rev: 2}, {Kind: "enable"}, {Kind: "refresh"}, {Kind: "disable"}, {Kind: "remove-rev", Rev: 1},
+			{Kind: "remove-rev", Rev: 1}, {Kind: "enable"}}},
 		// C11: remove the current revision of a disabled snap (Current moves to the last kept one), enable, remove all
 		{Core: true, Ops: []c10Op{inst, newr, newr, {Kind: "disable"}, {Kind: "remove-rev", Rev: 3}, {Kind: "enable"},
 			{Kind: "remove-rev", Rev: 1}, {Kind: "setcfg", Rev: 4}, {Kind: "remove", Fail: 9}, {Kind: "remove"}}},
@@ -749,6 +795,27 @@ func c10Gen(r *vh.Rand, tier string, n int) []c10In {
 		}
 		ins = append(ins, in)
 	}
+	// deep histories: more kept revisions than the (lowered) retain value, then refreshes to kept revisions in the middle that
+	// fail late (after their discards), so that undoLinkSnap has to account for several missing revisions
+	for i := 0; i < (n+2)/3; i++ {
+		in := c10In{Core: r.Chance(1, 2), Ops: []c10Op{{Kind: "retain", Rev: r.Range(4, 6)}, {Kind: "install", Rev: 1, Chan: 1}}}
+		for j, m := 0, r.Range(3, 5); j < m; j++ {
+			in.Ops = append(in.Ops, c10Op{Kind: "refresh"})
+		}
+		if r.Chance(1, 3) {
+			in.Ops = append(in.Ops, c10Op{Kind: "revert", Flags: c10Pick3(r, 0, c10NotBlocked, 0)})
+		}
+		in.Ops = append(in.Ops, c10Op{Kind: "retain", Rev: r.Range(2, 3)})
+		for j, m := 0, r.Range(1, 3); j < m; j++ {
+			op := c10Op{Kind: "refresh", Rev: r.Range(1, 6), Fail: r.Range(14, 40)}
+			if r.Chance(1, 4) {
+				op.Fail = 0
+			}
+			in.Ops = append(in.Ops, op)
+		}
+		in.Ops = append(in.Ops, c10RandOp(r, true))
+		ins = append(ins, in)
+	}
 	return ins
 }
 
@@ -762,6 +829,9 @@ func (s *verifC10Suite) exec(c *C, in c10In) vh.Out {
 		tagset["op:"+x.Op.Kind] = true
 		if x.Err {
 			tagset["refused:"+x.Op.Kind] = true
+		}
+		if x.Panic != "" {
+			tagset["panic:"+x.Op.Kind] = true
 		}
 		if x.K > 0 {
 			pos := "after-last"
